@@ -297,16 +297,25 @@ impl BitFont {
     /// # Errors
     ///
     /// This function will return an error if .
+    /// A font file may declare any glyph box; buffers divide by it and size pictures with it.
+    fn check_glyph_box(font: Self, data_len: usize) -> EngineResult<Self> {
+        const MAX_GLYPH_DIMENSION: i32 = 256;
+        if font.size.width < 1 || font.size.height < 1 || font.size.width > MAX_GLYPH_DIMENSION || font.size.height > MAX_GLYPH_DIMENSION {
+            return Err(FontError::UnknownFontFormat(data_len).into());
+        }
+        Ok(font)
+    }
+
     pub fn from_bytes(font_name: impl Into<String>, data: &[u8]) -> EngineResult<Self> {
         if data.len() >= 4 {
             let magic16 = u16::from_le_bytes(data[0..2].try_into().unwrap());
             if magic16 == BitFont::PSF1_MAGIC {
-                return Ok(BitFont::load_psf1(font_name, data));
+                return BitFont::check_glyph_box(BitFont::load_psf1(font_name, data), data.len());
             }
 
             let magic32 = u32::from_le_bytes(data[0..4].try_into().unwrap());
             if magic32 == BitFont::PSF2_MAGIC {
-                return BitFont::load_psf2(font_name, data);
+                return BitFont::check_glyph_box(BitFont::load_psf2(font_name, data)?, data.len());
             }
         }
 
